@@ -100,6 +100,11 @@ class Explorer:
             f'nondeterministic replay in {self.h.name} {self.h.params} '
             f'prefix={prefix}')
     problems = self.h.check(res)
+    if len(st.samples) < 2 and any(res.choices):
+      st.sample({'harness': self.h.name, 'params': self.h.params,
+                 'schedule (choice index at every multi-option point)':
+                     res.choices[:80],
+                 'steps': res.steps, 'failure': _fail_str(res)})
     st.case((self.h.name, _freeze(self.h.params), tuple(res.choices)))
     st.outcome((self.h.name, self.h.outcome(res)) if hasattr(self.h, 'outcome')
                else (self.h.name, res.failure and res.failure[0], res.steps))
